@@ -560,16 +560,27 @@ where
         // Remove the pre-inner alt, to be reinserted later so we always preserve it
         let old_alt = inp.errors.alt.take();
 
-        let out = self.parser.go::<Emit>(inp)?;
-        let span = inp.span_since(&before);
+        let res = self.parser.go::<Emit>(inp);
         let new_alt = inp.errors.alt.take();
+        let out = match res {
+            Ok(out) => out,
+            Err(()) => {
+                // The inner parser failed: reinsert the original alt and apply the inner failure on top of it
+                inp.errors.alt = old_alt;
+                if let Some(new_alt) = new_alt {
+                    inp.add_alt_err(&new_alt.pos, new_alt.err);
+                }
+                return Err(());
+            }
+        };
+        let span = inp.span_since(&before);
 
         match (self.mapper)(out, span) {
             Ok(out) => {
                 // If successful, reinsert the original alt and then apply the new alt on top of it, since both are valid
                 inp.errors.alt = old_alt;
                 if let Some(new_alt) = new_alt {
-                    inp.add_alt_err(&before.inner, new_alt.err);
+                    inp.add_alt_err(&new_alt.pos, new_alt.err);
                 }
                 Ok(M::bind(|| out))
             }
